@@ -19,7 +19,7 @@ func init() {
 			"R2 the gzip writer deletes Content-Length and sets Content-Encoding before it commits the header, the filter writer consults every filter and decides before either underlying WriteHeader, writes go to the gzip stream exactly on the compress path, and nothing in package gzip ever sets Content-Length; " +
 			"R3 gzip's setup always installs SkipCompressedFilter; " +
 			"R4 the file server's decision table (serveFile against a modelled file system: hidden file, offered and explicitly refused (q=0) codings, existing and hidden siblings): exactly one file reaches ServeContent — the sibling of the first coding of the priority table that the client offers and does not refuse, that exists and is not hidden, labelled with that coding's name — or the file itself without Content-Encoding; " +
-			"R5 the compressed stream is finished exactly once per response and the pooled compressor returned exactly once (no second release that would let two responses share one compressor). Since round 4: R2 the filter writer's Write as a table. R6 no response-writer type that declares Write inherits ReadFrom or WriteString from an embedded writer. Since round 5: R3 as a table of gzipParse (every directive text keeps SkipCompressedFilter). Since round 6: R2 the filter writer along WriteHeader/Write/Flush sequences: decided once, before the first commit, and kept. Since round 7: R1 any spelling of an existing coding (case, list, repeated line, unknown) is declined; R2 an informational header commits nothing and the compressor is attached once; R7 a client that does not offer gzip (absent, other codings, q=0) is handed the plain writer.",
+			"R5 the compressed stream is finished exactly once per response and the pooled compressor returned exactly once (no second release that would let two responses share one compressor). Since round 4: R2 the filter writer's Write as a table. R6 no response-writer type that declares Write inherits ReadFrom or WriteString from an embedded writer. Since round 5: R3 as a table of gzipParse (every directive text keeps SkipCompressedFilter). Since round 6: R2 the filter writer along WriteHeader/Write/Flush sequences: decided once, before the first commit, and kept. Since round 7: R1 any spelling of an existing coding (case, list, repeated line, unknown) is declined; R2 an informational header commits nothing and the compressor is attached once; R7 a client that does not offer gzip (absent, other codings, q=0) is handed the plain writer. Since round 8: R6 a writer that declares Flush does not inherit FlushError.",
 		notDecided: "decoded-body equality; exact Content-Length values set by handlers.",
 	})
 }
